@@ -53,6 +53,7 @@ type Engine struct {
 	RepoPrefix   string
 	Trace        bool
 	Witness      bool
+	resetList    []*ssa.Global
 }
 
 func NewEngine(prog *ssa.Program, solverBin string, timeoutMs int) *Engine {
@@ -68,18 +69,52 @@ func NewEngine(prog *ssa.Program, solverBin string, timeoutMs int) *Engine {
 
 func (e *Engine) resetGlobals() {
 	i := e.I
-	for _, p := range i.prog.AllPackages() {
-		for _, m := range p.Members {
-			if v, ok := m.(*ssa.Global); ok {
-				cell := zero(mustDeref(v.Type()))
-				if old, ok := i.globals[v]; ok {
-					*old = cell
-				} else {
+	if e.resetList == nil {
+		// first path: allocate everything; remember which globals need re-zeroing per path.
+		// Large arrays of packages whose init never runs stay all-zero tables that nothing
+		// writes; they are allocated once.
+		for _, p := range i.prog.AllPackages() {
+			allowed := InitAllow == nil || InitAllow(p.Pkg.Path())
+			for _, m := range p.Members {
+				if v, ok := m.(*ssa.Global); ok {
+					cell := zero(mustDeref(v.Type()))
 					i.globals[v] = &cell
+					if allowed || cellCount(cell, 65) <= 64 {
+						e.resetList = append(e.resetList, v)
+					}
 				}
 			}
 		}
+		if e.resetList == nil {
+			e.resetList = []*ssa.Global{}
+		}
+		return
 	}
+	for _, v := range e.resetList {
+		*i.globals[v] = zero(mustDeref(v.Type()))
+	}
+}
+
+// cellCount counts the cells of a zero value up to limit.
+func cellCount(v value, limit int) int {
+	n := 1
+	switch v := v.(type) {
+	case array:
+		for _, e := range v {
+			n += cellCount(e, limit-n)
+			if n > limit {
+				return n
+			}
+		}
+	case structure:
+		for _, e := range v {
+			n += cellCount(e, limit-n)
+			if n > limit {
+				return n
+			}
+		}
+	}
+	return n
 }
 
 // RunPath executes harness fn of pkg under the given decision prefix.
